@@ -326,7 +326,7 @@ fn judge_rung(rep: &mut Report, solver: Solver, cfg: &Cfg, lip: f64, m2: f64, pt
         let floor = 64.0 * EPS * (1.0 + norm2(&ex)) * (1.0 + i as f64).sqrt();
         let dt = *t - cfg.t0;
         let bound = if solver == Solver::Euler { 1.05 * cfg.dt_max * m2 / (2.0 * lip) * ((lip * dt).exp() - 1.0) } else { item_bound(solver, cfg.tol, lip, i, dt) };
-        let ratio = (err - floor).max(0.0) / bound.max(1e-300);
+        let ratio = nmax(err - floor, 0.0) / bound.max(1e-300);
         rep.max(&format!("{}/{}error_over_bound", sname, tag), ratio);
         worst = worst.max(err);
         if !(err <= bound + floor) {
